@@ -111,7 +111,8 @@ package pdf
 //@   ensures R(s) && scanFrame(s)
 //@   ensures err == nil ==> apos(s) == old(apos(s)) + 1 && c == s.src.stream[old(apos(s)) - s.P0]
 //@   ensures err != nil ==> apos(s) == old(apos(s)) && atEnd(s)
-//@   ensures err != nil && err != io.EOF ==> s.src.fails
+//@   ensures err != nil && err != io.EOF ==> s.src.fails && err == s.err
+//@   ensures err == io.EOF ==> !s.src.fails
 
 //@ func (*scanner).ScanBytes (s, accept) (err)
 //@   tags C01 C04 C05 C19 C20
@@ -254,3 +255,78 @@ package pdf
 //@   requires 0 <= k && k <= len(l)
 //@   ensures nmPos(o, 0, k) == nameEncLen(l, k)
 //@   ensures k < len(l) ==> nmByte(o, nameEncLen(l, k)) == l[k] && !nmStop(o, nameEncLen(l, k))
+
+// ---- error classes (C19, C20) ----
+//@ func IsMalformed (err) (r)
+//@   trusted
+//@   pure
+//@   ensures r == malformed(err)
+
+//@ func Wrap (err, loc) (r)
+//@   trusted
+//@   assigns nothing
+//@   ensures (r == nil) == (err == nil) && malformed(r) == malformed(err)
+
+//@ func (*scanner).CurrentPos (s) (p)
+//@   tags C04 C05
+//@   pure
+//@   ensures p == s.filePos + s.pos
+
+//@ func (*scanner).Discard (s, n) (err)
+//@   tags C04 C05 C19 C20
+//@   requires R(s) && 0 <= n && n <= 281474976710656
+//@   assigns s.filePos, s.pos, s.used, s.src.rdpos
+//@   ensures R(s) && scanFrame(s)
+//@   ensures apos(s) >= old(apos(s)) && apos(s) <= old(apos(s)) + n
+//@   ensures err == nil ==> apos(s) == old(apos(s)) + n
+//@   ensures err != nil ==> atEnd(s)
+//@   ensures err != nil && err != io.EOF ==> s.src.fails && !malformed(err)
+//@   ensures err == io.EOF ==> !s.src.fails
+
+//@ func (*scanner).ReadInteger (s) (x, err)
+//@   tags C01 C04 C05 C19 C20
+//@   requires R(s)
+//@   assigns s.filePos, s.pos, s.used, s.err, elems(s.buf), s.src.rdpos
+//@   ensures R(s) && scanFrame(s) && apos(s) >= old(apos(s))
+//@   ensures err != nil && !malformed(err) && err != io.EOF ==> s.src.fails && err == s.err
+//@   ensures err == io.EOF ==> atEnd(s) && !s.src.fails
+//@   ensures s.src.fails && atEnd(s) ==> err != nil && !malformed(err) && err != io.EOF
+//@   loop ScanBytes.1: invariant refof(res) == 0 || refof(res) > \top0
+//@   loop ScanBytes.2: invariant refof(res) == 0 || refof(res) > \top0
+
+//@ func (*scanner).ReadNumber (s) (x, err)
+//@   tags C01 C04 C05 C19 C20
+//@   requires R(s)
+//@   assigns s.filePos, s.pos, s.used, s.err, elems(s.buf), s.src.rdpos
+//@   ensures R(s) && scanFrame(s) && apos(s) >= old(apos(s))
+//@   ensures err != nil && !malformed(err) ==> s.src.fails && err == s.err
+//@   ensures s.src.fails && atEnd(s) ==> err != nil && !malformed(err)
+//@   loop ScanBytes.1: invariant refof(res) == 0 || refof(res) > \top0
+//@   loop ScanBytes.2: invariant refof(res) == 0 || refof(res) > \top0
+
+//@ func (*encryptInfo).DecryptBytes (enc, ref, buf) (out, err)
+//@   trusted
+//@   assigns elems(buf)
+//@   ensures err == nil ==> (refof(out) == refof(buf) && len(out) <= len(buf) && offof(out) >= offof(buf) && offof(out) + len(out) <= offof(buf) + len(buf))
+//@   ensures err != io.EOF
+
+//@ func (*scanner).ReadHexString (s) (res, err)
+//@   tags C01 C04 C05 C19 C20
+//@   requires R(s)
+//@   assigns s.filePos, s.pos, s.used, s.err, elems(s.buf), s.src.rdpos
+//@   ensures R(s) && scanFrame(s) && apos(s) >= old(apos(s))
+//@   ensures s.enc == nil ==> (err != nil && !malformed(err) && err != io.EOF ==> s.src.fails && err == s.err)
+//@   ensures err == io.EOF ==> atEnd(s) && !s.src.fails
+//@   loop ScanBytes.1: invariant refof(res) == 0 || refof(res) > \top0
+//@   loop ScanBytes.2: invariant refof(res) == 0 || refof(res) > \top0
+
+//@ func (*scanner).ReadString (s) (res, err)
+//@   tags C01 C04 C05 C19 C20
+//@   requires R(s)
+//@   assigns s.filePos, s.pos, s.used, s.err, elems(s.buf), s.src.rdpos
+//@   ensures R(s) && scanFrame(s) && apos(s) >= old(apos(s))
+//@   ensures s.enc == nil ==> (err != nil && !malformed(err) && err != io.EOF ==> s.src.fails && err == s.err)
+//@   ensures err == io.EOF ==> atEnd(s) && !s.src.fails
+//@   loop 1: invariant R(s) && scanFrame(s) && apos(s) >= old(apos(s)) && (refof(res) == 0 || refof(res) > \top0)
+//@   loop 1: decreases avail(s), (ignoreLF ? 1 : 0)
+//@   loop 2: invariant R(s) && scanFrame(s) && apos(s) >= pre(apos(s)) && (refof(res) == 0 || refof(res) > \top0)
